@@ -402,6 +402,7 @@ func run(r *hx.Run) error {
 		h.emitMouse(vaxis.Mouse{Button: vaxis.MouseButton(gen.Pick(h.rng, buttons)), Col: 3, Row: 4, EventType: vaxis.EventType(gen.Pick(h.rng, events))}, mn, "all-512-modes")
 	}
 	r.Note("mouse: all MouseButton constants x press/release/motion x 128 mode combinations", true)
+	h.childStreams()
 	return nil
 }
 
@@ -410,6 +411,8 @@ func (h *H) replay(op []string) (string, bool) {
 		return "", false
 	}
 	switch op[0] {
+	case "ckey", "cmouse", "cpaste":
+		return h.childReplay(op)
 	case "key":
 		if len(op) != 4 {
 			return "", false
